@@ -265,7 +265,10 @@ theorem held_mintr (S : PSt) (i p : Pid) (h : Held S p) : Held (mintr S i) p := 
       · split <;> simp [Held]
       · exact h
     | unw a b c => simpa [hc] using h
-    | rel a b c e => simpa [hc] using h
+    | rel a b c e =>
+      simp only []
+      repeat' split
+      all_goals simp [Held, hc]
     | fin o => simpa [hc] using h
   · have e := mintr_effect S i
     unfold Held
